@@ -192,6 +192,10 @@ func RunWorker(a WorkerArgs) int {
 				break
 			}
 			runOne(k)
+			if pz, ok := eng.(Poisonable); ok && pz.Poisoned() {
+				sum.Truncated = true
+				break
+			}
 		}
 	}
 
@@ -227,11 +231,17 @@ func RunWorker(a WorkerArgs) int {
 			ch := NewReplayChooser(t)
 			curChooser.Store(ch)
 			wdRun.Store(fv.Run)
-			wdRunStart.Store(time.Now().UnixNano())
-			res := eng.Run(a.Prop, ch, NewStats())
-			wdRunStart.Store(0)
-			for j := range res.Violations {
-				v := &res.Violations[j]
+			var vs []Violation
+			if ie, ok := eng.(IsolatedEvaluator); ok {
+				// evaluated in a child process that has its own time limit
+				vs = ie.EvalIsolated(a.Prop, t)
+			} else {
+				wdRunStart.Store(time.Now().UnixNano())
+				vs = eng.Run(a.Prop, ch, NewStats()).Violations
+				wdRunStart.Store(0)
+			}
+			for j := range vs {
+				v := &vs[j]
 				if v.Property == fv.Property && v.Signature == fv.Signature {
 					return v
 				}
